@@ -185,7 +185,7 @@ def check_add(value, acc):
         for opts in OPTIONS:
             for meta_mode in ("absent", "recorded{", 'recorded"', "recorded-none", "other-fields-only"):
                 for kind in ("field", "string"):
-                    if kind == "string" and (key != KEYS[0] or meta_mode == "other-fields-only"):
+                    if kind == "string" and (key not in (KEYS[0], "year", "volume") or meta_mode == "other-fields-only"):
                         continue
                     acc.trace()
                     recorded = {"absent": None, "recorded{": "{", 'recorded"': '"', "recorded-none": "no-enclosing", "other-fields-only": None}[meta_mode]
@@ -197,7 +197,7 @@ def check_add(value, acc):
                             e.parser_metadata["removed_enclosing"] = {"other": "{", key: recorded}
                         blk = e
                     else:
-                        blk = String("s", value)
+                        blk = String("s" if key == KEYS[0] else key, value)
                         if recorded is not None:
                             blk.parser_metadata["removed_enclosing"] = recorded
                     case = {"add": repr(value), "key": key, "options": list(opts), "metadata": meta_mode, "kind": kind}
